@@ -651,7 +651,7 @@ pub fn check(ctx: &Ctx, rep: &mut Report) {
     }
     let mut base = total;
     // 2. random unicode strings
-    let nrand = ctx.size(50_000, 2_000_000) / ctx.nshards;
+    let nrand = ctx.size(50_000, 10_000_000) / ctx.nshards;
     for k in 0..nrand {
         let n = base + k;
         if !ctx.wants(n) {
@@ -722,7 +722,7 @@ pub fn check(ctx: &Ctx, rep: &mut Report) {
         rep.exhaustive_parts.push("empty, all 256 single bytes and all 65536 byte pairs as Value::Bytes x 3 backends".into());
     }
     base += 1 << 32;
-    let nrb = ctx.size(20_000, 500_000) / ctx.nshards;
+    let nrb = ctx.size(20_000, 2_500_000) / ctx.nshards;
     for k in 0..nrb {
         let n = base + k;
         if !ctx.wants(n) {
